@@ -162,8 +162,9 @@ func (g *GoBackNConn) Send(data []byte) error {
 		}
 	}
 
-	if g.cfg.maxChunkSize == 0 {
-		// Splitting is disabled.
+	if g.cfg.maxChunkSize == 0 || len(data) == 0 {
+		// Splitting is disabled, or there is nothing to split: an empty
+		// message is still one (final) packet.
 		return sendPacket(&PacketData{
 			Payload:    data,
 			FinalChunk: true,
